@@ -10,6 +10,31 @@ TRUST = ("z3 5.1.0 (thorough tier cross-checks every decided query with cvc5 1.4
          "semantics of the kernels; the stubs listed in the evidence file")
 
 CHECKS = {
+    "C16": dict(
+        text="A: the real Combiner, kernel generators, channel constructors and order methods run for the cells of the configuration "
+             "lattice kind x heavyness x process x projectile x scheme/NfFF/FONLL-part x PTO with Q2 symbolic (all threshold paths); "
+             "only explicit rejections (ValueError/NotImplementedError/RuntimeError with message) are admissible exceptions. B: every "
+             "RSL part of every channel class runs at a symbolic z with the argument vector the class packs. C: the SF front door, "
+             "real ESF and TMC classes run on UNRESTRICTED symbolic x, Q2, x_min: z3 proves result => inside the domain and "
+             "rejection (TMC=0) => outside, on every path. D: the NaN/inf scrubber over the valid observable names. E: CrossHair: "
+             "ObservableName is total on short strings. Thorough tier covers the complete lattice product.",
+        note=TRUST + "; CrossHair 0.0.110 (strings <= 4 chars); EW weights concrete in part A; NaNs produced inside external libraries "
+             "are outside (the scrubber's totality is what is checked); quick tier takes a fixed 3% hash-selected subset of the lattice.",
+        technique="symbolic execution of the real dispatch/validation code (z3 proxies, path exploration) over the enumerated lattice + CrossHair",
+        engine="symex+crosshair",
+        design="§4 C16",
+    ),
+    "C18": dict(
+        text="PARTIAL (bounds clause only): every RSL part of every channel class x order x nf, every splitting label and the TMC kernels "
+             "run (Python semantics, JIT off) at a symbolic z on all feasible paths with the argument vector the calling class really "
+             "packs wrapped in a bounds-recording array; every element access must satisfy 0 <= i < len (negative indices included). "
+             "In compiled mode a violation is a silent garbage read. NOT claimed: equality of machine code and interpreter results "
+             "and JIT-on = JIT-off for whole runs.",
+        note="Python semantics of the kernels (NUMBA_DISABLE_JIT=1); the numba/LLVM artefact is not analysed (out of reach of the "
+             "solvers here, see DESIGN §4 C18 and §7); external libraries as atoms.",
+        technique="symbolic execution of the kernels with bounds-recording argument vectors (z3 proxies, path exploration)",
+        design="§4 C18",
+    ),
     "C15": dict(
         text="The real Output.{get_raw,dump_yaml,load_yaml,dump_tar,load_tar} and ESFResult/EXSResult.{get_raw,from_document} run on "
              "outputs whose numbers are symbolic tokens, with PyYAML / npz / tarfile / tempfile / pathlib replaced by in-memory "
